@@ -63,14 +63,23 @@ Lemma nonatomic_double_failure_refuted :
   exists fs, count_true fs = 2%nat /\ final_of (upgrade false fs) = CNone /\ result_of (upgrade false fs) = RLost.
 Proof. exists [false; true; false; true]. vm_compute. repeat split. Qed.
 
-(* F-C31b: the contingency path removes the intact old config also on atomic backends *)
-Lemma atomic_double_failure_refuted :
-  exists fs, count_true fs = 2%nat /\ final_of (upgrade true fs) = CNone /\ result_of (upgrade true fs) = RLost.
-Proof. exists [true; false; true]. vm_compute. repeat split. Qed.
-
-Lemma atomic_failure_then_crash_refuted :
-  exists fs p, count_true fs = 1%nat /\ prefix p (trace_of (upgrade true fs)) /\ run C1 p = CNone.
-Proof. exists [true], [CRemove]. split; [reflexivity|]. split; [exists [CSave1]; reflexivity | reflexivity]. Qed.
+(* atomic-replace backends (after 70c3c2bee): EVERY fault pattern, at EVERY prefix of the operations
+   that succeed, leaves the old or the new config; the run never ends as Lost and performs at most the
+   one Save of the new config *)
+Lemma atomic_all_faults_safe fs :
+  (forall p, prefix p (trace_of (upgrade true fs)) -> present (run C1 p)) /\
+  present (final_of (upgrade true fs)) /\
+  result_of (upgrade true fs) <> RLost /\
+  (trace_of (upgrade true fs) = [] \/ trace_of (upgrade true fs) = [CSave2]).
+Proof.
+  destruct fs as [|[] r].
+  - vm_compute. repeat split; auto; try discriminate.
+    intros p [q H]. destruct p as [|x [|y t]]; cbn in H; inversion H; subst; vm_compute; auto.
+  - vm_compute. repeat split; auto; try discriminate.
+    intros p [q H]. destruct p; [vm_compute; auto | discriminate].
+  - vm_compute. repeat split; auto; try discriminate.
+    intros p [q H]. destruct p as [|x [|y t]]; cbn in H; inversion H; subst; vm_compute; auto.
+Qed.
 
 (* the oracle *)
 Lemma check_C31_sound c :
@@ -89,9 +98,9 @@ Lemma model_config_clause atomic fs :
 Proof. unfold present. destruct (final_of (upgrade atomic fs)); split; intro H; try tauto; try discriminate; destruct H; discriminate. Qed.
 
 Example c31_nonvacuous :
-  upgrade true [true] = ([CRemove; CSave1], C1, RRecovered) /\
+  upgrade true [true] = ([], C1, RRecovered) /\
   upgrade false [true] = ([CRemove; CSave1], C1, RRecovered) /\
   upgrade false [false; true] = ([CRemove; CSave1], C1, RRecovered) /\
   upgrade false [false; true; true; true] = ([CRemove], CNone, RLost) /\
-  upgrade true [true; true; true] = ([], C1, RLost).
+  upgrade true [true; false; true] = ([], C1, RRecovered).
 Proof. vm_compute. repeat split. Qed.
